@@ -77,6 +77,11 @@ impl Allocator {
     }
   }
 
+  /// Verification hook: position the collection counter (every 10th collection is a full sweep)
+  pub fn verif_set_gc_count(&mut self, gc_count: u128) {
+    self.gc_count = gc_count;
+  }
+
   /// Verification hook: is every key of the intern table the content of its own value
   pub fn verif_intern_consistent(&self) -> bool {
     self.intern_cache.iter().all(|(k, v)| *k == &**v)
